@@ -8,6 +8,7 @@ package main
 
 import (
 	"fmt"
+	"os"
 	"runtime"
 	"strings"
 	"sync"
@@ -304,7 +305,16 @@ func main() {
 		scs = append(scs, &scenario{proto: p, try: all, rng: hx.NewRng(1),
 			fixed: []string{"login", "script s2 kc.a", "req s2", "req s2", "script s3 s:kc|start s3", "req s1", "release", "req s1"}})
 	}
+	if os.Getenv("C16_DEBUG") == "login" {
+		scs = nil
+		for i := 0; i < 300; i++ {
+			scs = append(scs, &scenario{proto: modern[i%3], try: all, rng: hx.NewRng(1), fixed: []string{"login", "req s2"}})
+		}
+	}
 	n := run.Scale(110, 900)
+	if os.Getenv("C16_DEBUG") != "" {
+		n = 0
+	}
 	for i := 0; i < n; i++ {
 		var p proto.Protocol
 		if i%2 == 0 {
